@@ -84,6 +84,7 @@ class Lst:
     sliced: object = None  # for nums: (lo, hi) constant slice applied
     argobj: str = None  # the very list object passed for this parameter (not a copy): mutating it changes the caller's value
     isiter: bool = False  # an iterator over the list (iter(xs)): next() consumes from the front, the source list is untouched
+    oneshot: bool = False  # built by a generator expression: whatever walks it once leaves nothing (or a rest) for the next reader
 
 
 @dataclass(frozen=True)
@@ -669,6 +670,21 @@ class Interp(object):
         """branch refinement: `if x is not None`, `if "K" in kwargs`"""
         self.refine_range(test, take, fr)
         self.refine_nomask(test, take, fr)
+        # `any(m.any() for m in <the list of every input's mask>)` known false: no input has a missing cell, so `nomask` stands for
+        # the (empty) union of all of them on this branch
+        t0, w0 = test, take
+        while isinstance(t0, ast.UnaryOp) and isinstance(t0.op, ast.Not):
+            t0, w0 = t0.operand, not w0
+        if not w0 and isinstance(t0, ast.Call) and isinstance(t0.func, ast.Name) and t0.func.id == "any" and len(t0.args) == 1 and isinstance(t0.args[0], (ast.GeneratorExp, ast.ListComp)) \
+                and len(t0.args[0].generators) == 1 and not t0.args[0].generators[0].ifs and isinstance(t0.args[0].generators[0].iter, ast.Name) and isinstance(t0.args[0].generators[0].target, ast.Name):
+            gg = t0.args[0].generators[0]
+            el = t0.args[0].elt
+            if isinstance(el, ast.Call) and isinstance(el.func, ast.Attribute) and el.func.attr == "any" and not el.args and isinstance(el.func.value, ast.Name) and el.func.value.id == gg.target.id:
+                lst = fr.env.get(gg.iter.id)
+                if isinstance(lst, Lst) and lst.what == "masks" and lst.L and lst.part == "all" and not lst.oneshot:
+                    whole = self.part_elem(lst)
+                    if isinstance(whole, Arr):
+                        fr.env["__nomissing__"] = replace(whole, alias=E, freshmask=True)
         t = test
         neg = False
         while isinstance(t, ast.UnaryOp) and isinstance(t.op, ast.Not):
@@ -1137,7 +1153,13 @@ class Interp(object):
                 self.finding("equivariance", tnode, "positional index store on data axes: %s" % _src(tnode), fr)
             elif isinstance(x, Scal) and x is idx and base.shape == "same":
                 self.finding("equivariance", tnode, "positional index store on a data axis: %s" % _src(tnode), fr)
-        return replace(base, D=D, Pc=Pc, Pg=Pg, rng=rng, M=M)
+        ung = base.unguarded
+        if ung and isinstance(idx, Arr) and idx.isbool and idx.kind == "plain" and idx.cmp is not None and len(idx.cmp) > 3 and idx.cmp[1] in ("LtE", "Eq") \
+                and isinstance(v, Scal) and v.const is not None and idx.cmp[2] and idx.cmp[2][0] == "c" and idx.cmp[2][1] == v.const:
+            # q[filled(sel <= bound, False)] = bound, with a PLAIN boolean index: the store puts the bound where the quotient was 0/0
+            # and clears the mask the division left there (a masked comparison as index would leave those cells missing, A9)
+            ung = ung - {idx.cmp[3]}
+        return replace(base, D=D, Pc=Pc, Pg=Pg, rng=rng, M=M, unguarded=ung)
 
     def aug(self, s, fr):
         tv = self.ev(s.target, fr)
@@ -1438,6 +1460,17 @@ class ArrayInterp(Interp):
 
     # ---------------------------------------------------------------- comprehensions
     def ev_comp(self, e, fr):
+        out = self._ev_comp(e, fr)
+        g = e.generators[0]
+        if isinstance(g.iter, ast.Name) and isinstance(fr.env.get(g.iter.id), Lst) and fr.env[g.iter.id].oneshot:
+            # a generator walked here (by any(), a fold, another comprehension) is used up - possibly only in part: what a later
+            # reader finds in it is not the list of inputs any more
+            fr.env[g.iter.id] = Lst("opaque")
+        if isinstance(e, ast.GeneratorExp) and isinstance(out, Lst) and out.what in ("arrs", "masks") and out.L:
+            out = replace(out, oneshot=True)
+        return out
+
+    def _ev_comp(self, e, fr):
         g = e.generators[0]
         it = self.ev(g.iter, fr)
         if len(e.generators) != 1:
@@ -1450,7 +1483,7 @@ class ArrayInterp(Interp):
             parts = []
             for comp_ in e.elt.elts:
                 sub_ = ast.copy_location(ast.ListComp(elt=comp_, generators=e.generators), e)
-                parts.append(self.ev_comp(sub_, fr))
+                parts.append(self._ev_comp(sub_, fr))
             return Lst("zip", srcs=tuple(getattr(x_, "srcs", ()) for x_ in parts), zipped=tuple(parts))
         if isinstance(it, Lst) and it.what == "zip" and it.zipped and not g.ifs and isinstance(e.elt, ast.Name) and isinstance(g.target, ast.Tuple) \
                 and len(g.target.elts) == len(it.zipped) and all(isinstance(x_, ast.Name) for x_ in g.target.elts):
@@ -1583,6 +1616,8 @@ class ArrayInterp(Interp):
                     return Other("opaque")
                 return self.ev_static(r[1], r[1].consts.get(r[2]), ("const", r[1].name, r[2]), single=self.idx._single_assignment(r[1], r[2]))
             qn = self.q(e, fr)
+            if qn in ("numpy.ma.nomask", "numpy.ma.core.nomask") and isinstance(fr.env.get("__nomissing__"), Arr):
+                return fr.env["__nomissing__"]
             return Other("global", qn or (str(base.info) + "." + a))
         if isinstance(base, Other) and base.tag == "dictobj" and a == "get":
             return Other("fn", "dictget")
@@ -2052,6 +2087,17 @@ class ArrayInterp(Interp):
             if fv.tag == "lambda":
                 A, K = self.eval_args(e, fr)
                 return self.apply_lambda(fv.info, A, fr)
+            if fv.tag == "vectorized":
+                # numpy.vectorize(f, otypes=[T])(x, ...): f cell by cell, the element type stated - the shape of the operands, each
+                # cell a function of the operands' cells at that position (a masked operand comes in as its raw data)
+                A, K = self.eval_args(e, fr)
+                arrs_ = [x_ for x_ in A if isinstance(x_, Arr)]
+                if not arrs_ or K:
+                    return Other("opaque")
+                a_ = arrs_[0]
+                D_ = frozenset().union(*[x_.D for x_ in arrs_])
+                Pc_ = frozenset().union(*[x_.Pc | (x_.D if x_.kind == "masked" else E) for x_ in arrs_])
+                return replace(a_, kind="plain", alias=self.S(e), M=E, D=D_, Pc=Pc_, dt=fv.info, rng=(None, None), maskof=E, dataof=E, cmp=None, keeps=None, isbool=False)
             if fv.tag == "switch":
                 A, K = self.eval_args(e, fr)
                 outs = []
@@ -2595,8 +2641,13 @@ class ArrayInterp(Interp):
                     if a0.kind == "masked":
                         return replace(a0, kind="plain", M=E, Pc=a0.Pc | a0.D, alias=S(), maskof=E, dataof=E, rng=(None, None))
                     return replace(a0, alias=S(), maskof=E, dataof=E)
+                # with dtype= the outcome is the same storage only when the element type already is that one (float32 / integer data
+                # is converted into NEW storage): it may alias the operand (a write may reach it) but is not known to BE its buffer
+                conv_ = K.get("dtype") is not None or len(A) > 1
                 if a0.kind == "masked" and qn != "numpy.asanyarray":
-                    return replace(a0, kind="plain", M=E, Pc=a0.Pc | a0.D, alias=a0.alias | S(), maskof=E, dataof=a0.alias, rng=(None, None))
+                    return replace(a0, kind="plain", M=E, Pc=a0.Pc | a0.D, alias=a0.alias | S(), maskof=E, dataof=E if conv_ else a0.alias, rng=(None, None))
+                if conv_:
+                    return replace(a0, alias=a0.alias | S(), dataof=E, maskof=E)
                 return replace(a0, alias=a0.alias | S())
             if isinstance(a0, Lst) and a0.what == "arrs":
                 el = self.part_elem(a0)
@@ -2692,6 +2743,13 @@ class ArrayInterp(Interp):
         if qn == "numpy.vectorize":
             if "otypes" not in K:
                 self.finding("equivariance", e, "numpy.vectorize without `otypes` takes the element type of the whole result from the FIRST cell's value: whether fractions survive depends on which cell comes first", fr)
+                return Other("opaque")
+            ot_ = next((k_.value for k_ in e.keywords if k_.arg == "otypes"), None)
+            if isinstance(ot_, (ast.List, ast.Tuple)) and len(ot_.elts) == 1 and not K.get("signature") and not K.get("excluded"):
+                tq_ = self.q(ot_.elts[0], fr) if isinstance(ot_.elts[0], (ast.Name, ast.Attribute)) else (ot_.elts[0].value if isinstance(ot_.elts[0], ast.Constant) else None)
+                dt_ = {"builtins.float": F_, "float": F_, "numpy.float64": F_, "numpy.float32": F_, "numpy.double": F_, "d": F_, "f": F_, "builtins.int": I_, "int": I_, "numpy.int64": I_, "numpy.int32": I_, "builtins.bool": B_, "bool": B_}.get(tq_)
+                if dt_ is not None:
+                    return Other("vectorized", dt_)
             return Other("opaque")
         if qn in ("numpy.ma.getmaskarray", "numpy.ma.getmask"):
             if isinstance(a0, Arr):
@@ -2795,6 +2853,16 @@ class ArrayInterp(Interp):
                 self.write_site(out, e, "out= of clip", fr)
             if isinstance(a0, Arr):
                 keepmask = a0.kind == "masked" and qn == "numpy.ma.clip" or a0.kind == "masked"
+                outnode = next((k_.value for k_ in e.keywords if k_.arg == "out"), None)
+                if isinstance(out, Arr) and isinstance(outnode, ast.Name) and (out is a0 or (out.alias and out.alias == a0.alias)):
+                    # clip(x, lo, hi, out=x): x is limited in place.  When x is the data buffer of a masked array (`y.data`,
+                    # getdata(y) - a view, A31) the values of y are limited with it; y's mask is not touched
+                    new_ = replace(out, rng=(scal_id(lo), scal_id(hi)))
+                    owners = [(k_, w_) for k_, w_ in fr.env.items() if isinstance(w_, Arr) and w_ is not out and out.dataof and (w_.alias & out.dataof) and not w_.isbool]
+                    self.rebind(outnode, out, new_, fr)
+                    for k_, w_ in owners:
+                        self.rebind(ast.Name(id=k_, ctx=ast.Load()), w_, replace(w_, rng=(scal_id(lo), scal_id(hi))), fr)
+                    return new_
                 return replace(a0, alias=out.alias if isinstance(out, Arr) else S(), rng=(scal_id(lo), scal_id(hi)), maskof=E, dataof=E, M=a0.M if keepmask else E)
             return Scal()
         # ---- selection
@@ -3049,6 +3117,8 @@ class ArrayInterp(Interp):
                 # min(x, c) is at most c and keeps x's lower bound when c is not below it; max(x, c) likewise
                 consts = [x for x in A if x.const is not None]
                 others = [x for x in A if x.const is None]
+                if len(consts) == 2 and all(isinstance(x.const, (int, float)) and not isinstance(x.const, bool) for x in consts):
+                    return Scal(const=(min if short == "min" else max)(consts[0].const, consts[1].const), dt=promote(consts[0].dt, consts[1].dt) if consts[0].dt and consts[1].dt else consts[0].dt)
                 if len(consts) == 1 and len(others) == 1:
                     c, o = consts[0], others[0]
                     lo, hi = o.rng
@@ -3161,6 +3231,8 @@ class ArrayInterp(Interp):
             if qn in ("os.remove", "os.unlink", "os.rename", "os.makedirs", "os.mkdir", "os.rmdir", "os.system", "os.replace"):
                 self.res.effects.append(("os-mutation", e.lineno, _src(e)[:80], self.fkey(fr), e))
             return Other("opaque", qn)
+        if qn in ("time.time", "time.monotonic", "time.perf_counter", "time.process_time", "time.clock"):
+            return Scal()  # a number of the clock: no array, no effect on the model
         if qn.startswith("numpy.") and not any(isinstance(x, (Arr,)) for x in list(A) + list(K.values())) and not any(isinstance(x, Lst) and x.what in ("arrs", "masks") for x in A):
             return Other("opaque", qn)
         if qn.endswith(".format") or qn.endswith(".join"):
